@@ -52,3 +52,63 @@ def _model_flag(v, z, f):
 def _copy_pending(v, z, f):
     """the copy was taken while queued or deferred events were pending in the source"""
     return v.get('pending_at_copy', 0) > 0
+
+
+def _families(v):
+    """the divergence separates exactly the back family from the backmp11 family"""
+    cl = [set(c) for c in v.get('classes', [])]
+    if len(cl) != 2:
+        return False
+    back = {'b', 'bc', 'bq', 'b11'}
+    mp = {'m', 'mf', 'mc'}
+    return (cl[0] <= back and cl[1] <= mp) or (cl[0] <= mp and cl[1] <= back)
+
+
+@predicate('enqueued_then_deferred_pe')
+def _enq_deferred(v, z, f):
+    """lock-step: enqueue_event was used at driver level, and an event that is pending before the divergent call (or is
+    submitted by it) is of a type that an active state defers (root-level deferral): the families differ in when the
+    message queue / pool is drained around a deferred event"""
+    if not v.get('lockstep') or not _families(v) or not v['history']:
+        return False
+    op, ev, _ = v['history'][-1]
+    if not any(o == 'eq' for o, _, _ in v['history']):
+        return False
+    types = set()
+    for p in v.get('pre_pending', []):
+        types |= set(p)
+    if op in ('pe', 'eq'):
+        types.add(int(ev))
+    active = {n for _, names in v.get('pre_config', ()) for n in names}
+    names = {z.events[t - 1] for t in types if 0 < t <= len(z.events)}
+    return any(s.name in active and (names & set(s.defer)) for m in z.machines() for s in m.states)
+
+
+@predicate('enqueued_then_blocked')
+def _enq_blocked(v, z, f):
+    """lock-step: events (enqueued at driver level or deferred) are pending while a terminate / interrupt state is, or
+    becomes, active"""
+    if not v.get('lockstep') or not _families(v) or not v['history']:
+        return False
+    blocking = {s.name for m in z.machines() for s in m.states if s.kind in ('terminate', 'interrupt')}
+    active = {n for _, names in v.get('pre_config', ()) for n in names}
+    for cfgs in v.get('post_configs', []):
+        active |= {n for _, names in cfgs for n in names}
+    pending = any(p for p in v.get('pre_pending', [])) or v['history'][-1][0] == 'eq'
+    return bool(blocking & active) and pending
+
+
+@predicate('local_submission_from_substate_exit')
+def _local_from_exit(v, z, f):
+    """lock-step: some step of the history submitted an event to the local Fsm (a submachine) from the exit behaviour of one
+    of its substates (answer label pX.<machine != root>...) -- the situation of KF1, seen through enqueue_event: back keeps
+    the event for the next activation of the submachine, backmp11 drops it when the submachine is entered again"""
+    if not v.get('lockstep') or not _families(v):
+        return False
+    for op, ev, lm in v['history']:
+        for lab, alt in lm.items():
+            if lab.startswith('pX.') and lab.split('.')[1] != '0' and alt >= 1:
+                api, e, tgt = z.menu[alt - 1]
+                if tgt == 'local':
+                    return True
+    return False
